@@ -10,7 +10,7 @@
 use crate::art::*;
 use crate::c15::ansi_token;
 use crate::util::*;
-use icy_engine::{Buffer, ColorOptimizer, ControlCharHandling, SauceData, SaveOptions, TextPane};
+use icy_engine::{Buffer, ColorOptimizer, ControlCharHandling, SauceData, SaveOptions, TextPane, DOS_DEFAULT_PALETTE, XTERM_256_PALETTE};
 use std::panic::AssertUnwindSafe;
 use std::path::PathBuf;
 
@@ -66,6 +66,36 @@ impl Opts {
 pub struct Case {
     pub opts: Opts,
     pub pic: Pic,
+    /// palette slots set to another colour after the picture was built (`Palette::set_color`): a custom base palette
+    pub base: Vec<(u32, (u8, u8, u8))>,
+    /// ANSI font pages installed in the buffer's font slots 1, 2, …; a cell selects slot `(flags >> 10) & 7` (bits
+    /// 10..12 of the picture's flag word are not attribute bits: they are stripped when the buffer is built)
+    pub fonts: Vec<usize>,
+}
+
+/// ANSI font pages that keep the property's reading of "CP437 characters": 16 pixel rows like the default font, and
+/// NUL, space and 0xFF are blank glyphs (the writer treats them as the same blank; in other code pages 0xFF is a letter)
+pub fn cp437_like_fonts() -> Vec<usize> {
+    static OK: std::sync::OnceLock<Vec<usize>> = std::sync::OnceLock::new();
+    OK.get_or_init(cp437_like_fonts_uncached).clone()
+}
+
+fn cp437_like_fonts_uncached() -> Vec<usize> {
+    (0..42usize)
+        .filter(|p| match icy_engine::BitFont::from_ansi_font_page(*p) {
+            Ok(f) => [0u32, 32, 255].iter().all(|c| match f.get_glyph(char::from_u32(*c).unwrap()) {
+                Some(g) => g.data.len() == 16 && g.data.iter().all(|r| *r == 0),
+                None => false,
+            }),
+            Err(_) => false,
+        })
+        .collect()
+}
+
+/// the picture-only bits of a cell's flag word that select a font slot
+const FONT_BITS: u16 = 7 << 10;
+fn font_slot(flags: u16) -> usize {
+    ((flags & FONT_BITS) >> 10) as usize
 }
 
 const CONTROL_CHARS: [u32; 8] = [27, 7, 8, 9, 12, 127, 13, 10];
@@ -73,15 +103,86 @@ const CONTROL_CHARS: [u32; 8] = [27, 7, 8, 9, 12, 127, 13, 10];
 const WRITER_FLAGS: u16 = 1 | 2 | 4 | 8 | 16 | 32 | 64 | 128;
 
 impl Case {
+    /// `<options>[@slot=rrggbb,…]:<sauce>:<picture>`
     pub fn input(&self) -> String {
-        format!("{}:{}:{}", self.opts.num(), self.opts.sauce as u8, self.pic.encode())
+        let base = if self.base.is_empty() {
+            String::new()
+        } else {
+            format!("@{}", self.base.iter().map(|(i, c)| format!("{}={:02x}{:02x}{:02x}", i, c.0, c.1, c.2)).collect::<Vec<_>>().join(","))
+        };
+        let fonts = if self.fonts.is_empty() { String::new() } else { format!("#{}", self.fonts.iter().map(|f| f.to_string()).collect::<Vec<_>>().join(".")) };
+        format!("{}{}{}:{}:{}", self.opts.num(), base, fonts, self.opts.sauce as u8, self.pic.encode())
     }
     pub fn decode(s: &str) -> Option<Case> {
         let mut it = s.splitn(3, ':');
-        let n: u32 = it.next()?.parse().ok()?;
+        let first = it.next()?;
+        let (first, fontstr) = match first.split_once('#') {
+            Some((a, b)) => (a, Some(b)),
+            None => (first, None),
+        };
+        let mut fonts = Vec::new();
+        if let Some(f) = fontstr {
+            for e in f.split('.') {
+                fonts.push(e.parse().ok()?);
+            }
+        }
+        let (num, basestr) = match first.split_once('@') {
+            Some((a, b)) => (a, Some(b)),
+            None => (first, None),
+        };
+        let n: u32 = num.parse().ok()?;
+        let mut base = Vec::new();
+        if let Some(b) = basestr {
+            for e in b.split(',') {
+                let (i, c) = e.split_once('=')?;
+                let v = u32::from_str_radix(c, 16).ok()?;
+                base.push((i.parse().ok()?, ((v >> 16) as u8, (v >> 8) as u8, v as u8)));
+            }
+        }
         let sauce = it.next()? != "0";
         let pic = Pic::decode(it.next()?)?;
-        Some(Case { opts: Opts::from_num(n, sauce), pic })
+        Some(Case { opts: Opts::from_num(n, sauce), pic, base, fonts })
+    }
+    /// the buffer that is saved
+    pub fn build(&self) -> Buffer {
+        let mut buf = self.pic.build();
+        for (i, c) in &self.base {
+            buf.palette.set_color(*i, icy_engine::Color::new(c.0, c.1, c.2));
+        }
+        for (k, page) in self.fonts.iter().enumerate() {
+            if let Ok(f) = icy_engine::BitFont::from_ansi_font_page(*page) {
+                buf.set_font(k + 1, f);
+            }
+        }
+        if self.has_fonts() {
+            for (y, row) in self.pic.rows.iter().enumerate() {
+                for (x, c) in row.iter().enumerate() {
+                    if c.flags & FONT_BITS != 0 {
+                        let mut ch = buf.layers[0].get_char((x as i32, y as i32));
+                        ch.attribute.attr = c.flags & !FONT_BITS;
+                        ch.attribute.set_font_page(font_slot(c.flags));
+                        buf.layers[0].set_char((x as i32, y as i32), ch);
+                    }
+                }
+            }
+        }
+        buf
+    }
+    /// some cell selects another font slot than 0 (the writer model has no font pages: oracle only)
+    pub fn has_fonts(&self) -> bool {
+        self.pic.rows.iter().flatten().any(|c| c.flags & FONT_BITS != 0)
+    }
+    /// the whole palette of the saved buffer
+    pub fn palette(&self) -> Vec<(u8, u8, u8)> {
+        let mut pal: Vec<(u8, u8, u8)> = (0..16).map(dos_rgb).collect();
+        pal.extend(self.pic.extra.iter().copied());
+        for (i, c) in &self.base {
+            if pal.len() <= *i as usize {
+                pal.resize(*i as usize + 1, (0, 0, 0));
+            }
+            pal[*i as usize] = *c;
+        }
+        pal
     }
     /// the character can be written under the chosen control-character handling
     pub fn encodable(&self, ch: u32) -> bool {
@@ -96,10 +197,10 @@ impl Case {
     }
     pub fn in_quantifier(&self) -> bool {
         let p = &self.pic;
-        let ncol = 16 + p.extra.len() as u32;
+        let ncol = self.palette().len() as u32;
         (if self.opts.sauce { (1..=132).contains(&p.w) } else { p.w == 80 })
             && (1..=60).contains(&p.h)
-            && p.rows.iter().flatten().all(|c| self.encodable(c.ch) && c.fg < ncol && c.bg < ncol && c.flags & !WRITER_FLAGS == 0 && !(p.ice == 1 && c.flags & 8 != 0))
+            && p.rows.iter().flatten().all(|c| self.encodable(c.ch) && c.fg < ncol && c.bg < ncol && c.flags & !(WRITER_FLAGS | FONT_BITS) == 0 && font_slot(c.flags) <= self.fonts.len() && (self.fonts.is_empty() || { let ok = cp437_like_fonts(); self.fonts.iter().all(|f| ok.contains(f)) }) && !(p.ice == 1 && c.flags & 8 != 0))
     }
 }
 
@@ -143,9 +244,10 @@ fn correspond_load(run: &mut Run, bytes: &[u8], bucket: &str) {
 fn displayed(buf: &Buffer, x: i32, y: i32) -> (Vec<u8>, Option<(u8, u8, u8)>, Option<(u8, u8, u8)>, bool) {
     let c = buf.get_char((x, y));
     let fg = if c.attribute.is_bold() && c.attribute.get_foreground() < 8 { c.attribute.get_foreground() + 8 } else { c.attribute.get_foreground() };
-    let (has_fg, has_bg) = glyph_shape(buf, c.ch);
-    // the character as it is shown: its glyph (NUL, space and 0xFF are the same blank in the CP437 font)
-    let shown = match buf.get_font(0).and_then(|f| f.get_glyph(c.ch)) {
+    let page = c.get_font_page();
+    let (has_fg, has_bg) = glyph_shape(buf, page, c.ch);
+    // the character as it is shown: its glyph in the cell's font (NUL, space and 0xFF are the same blank in the CP437 font)
+    let shown = match buf.get_font(page).and_then(|f| f.get_glyph(c.ch)) {
         Some(g) => g.data.clone(),
         None => (c.ch as u32).to_le_bytes().to_vec(),
     };
@@ -157,9 +259,9 @@ fn displayed(buf: &Buffer, x: i32, y: i32) -> (Vec<u8>, Option<(u8, u8, u8)>, Op
     )
 }
 
-/// (glyph has a set pixel, glyph has an unset pixel) in font 0 (8 pixels wide)
-fn glyph_shape(buf: &Buffer, ch: char) -> (bool, bool) {
-    match buf.get_font(0).and_then(|f| f.get_glyph(ch)) {
+/// (glyph has a set pixel, glyph has an unset pixel) in the font of the cell's page (8 pixels wide)
+fn glyph_shape(buf: &Buffer, page: usize, ch: char) -> (bool, bool) {
+    match buf.get_font(page).and_then(|f| f.get_glyph(ch)) {
         Some(g) => (g.data.iter().any(|r| *r != 0), g.data.iter().any(|r| *r != 0xFF)),
         None => (true, true),
     }
@@ -190,13 +292,16 @@ fn shape_key(case: &Case, what: &str, x: i32, y: i32, seen: &Buffer) -> String {
     if c.attribute.get_foreground() >= 16 || c.attribute.get_background() >= 16 {
         k.push_str(":extcolor");
     }
+    if c.get_font_page() != 0 {
+        k.push_str(":font");
+    }
     k.push_str(&format!(":ice{}", case.pic.ice));
     k
 }
 
 /// the property on the real code: `None` = holds, else (key, what)
 fn check_case(case: &Case) -> Option<(String, String)> {
-    let buf = case.pic.build();
+    let buf = case.build();
     let bytes = save(case, &buf);
     let seen = if case.opts.lossless() { buf.flat_clone(false) } else { ColorOptimizer::new(&buf, &case.opts.save_options()).optimize(&buf) };
     check(case, &seen, &bytes)
@@ -357,7 +462,46 @@ fn shrink(case: &Case, key: &str) -> Case {
             }
         }
     }
+    let mut k = 0;
+    while k < best.base.len() {
+        let mut c = best.clone();
+        c.base.remove(k);
+        if same(&c) {
+            best = c;
+        } else {
+            k += 1;
+        }
+    }
+    if !best.fonts.is_empty() && !best.has_fonts() {
+        let mut c = best.clone();
+        c.fonts.clear();
+        if same(&c) {
+            best = c;
+        }
+    }
+    // drop the palette entries no cell uses (indices renumbered)
+    if !best.pic.extra.is_empty() && best.base.iter().all(|(i, _)| *i < 16) {
+        let c = compact_palette(&best);
+        if c.pic.extra.len() < best.pic.extra.len() && same(&c) {
+            best = c;
+        }
+    }
     best
+}
+
+/// the same picture with the unused extra palette entries removed
+fn compact_palette(case: &Case) -> Case {
+    let mut used: Vec<u32> = case.pic.rows.iter().flatten().flat_map(|c| [c.fg, c.bg]).filter(|i| *i >= 16).collect();
+    used.sort();
+    used.dedup();
+    let mut c = case.clone();
+    c.pic.extra = used.iter().filter_map(|i| case.pic.extra.get(*i as usize - 16).copied()).collect();
+    let remap = |i: u32| if i >= 16 { used.iter().position(|u| *u == i).map(|k| 16 + k as u32).unwrap_or(i) } else { i };
+    for cell in c.pic.rows.iter_mut().flatten() {
+        cell.fg = remap(cell.fg);
+        cell.bg = remap(cell.bg);
+    }
+    c
 }
 
 fn oracle(run: &mut Run, case: &Case, seen: &Buffer, bytes: &Result<Vec<u8>, String>, seen_keys: &mut std::collections::BTreeSet<String>) {
@@ -368,7 +512,13 @@ fn oracle(run: &mut Run, case: &Case, seen: &Buffer, bytes: &Result<Vec<u8>, Str
             let what2 = check_case(&small).map(|(_, w)| w).unwrap_or(what);
             run.oracle_fail(&key, &small.input(), &what2);
         } else {
-            run.oracle_fail(&key, &case.input(), &what);
+            // not minimised: at least drop the palette entries no cell uses (keeps the replay readable)
+            let small = if case.base.iter().all(|(i, _)| *i < 16) { compact_palette(case) } else { case.clone() };
+            if small.in_quantifier() && check_case(&small).map(|(k, _)| k == key).unwrap_or(false) {
+                run.oracle_fail(&key, &small.input(), &what);
+            } else {
+                run.oracle_fail(&key, &case.input(), &what);
+            }
         }
     }
 }
@@ -383,21 +533,31 @@ fn save(case: &Case, buf: &Buffer) -> Result<Vec<u8>, String> {
 }
 
 fn one(run: &mut Run, case: &Case, with_lines: bool, seen_keys: &mut std::collections::BTreeSet<String>) -> Option<Vec<u8>> {
-    let buf = case.pic.build();
+    let buf = case.build();
     let bytes = save(case, &buf);
     run.nontrivial(fnv([case.opts.num() as u64, case.opts.sauce as u64, case.pic.hash()]));
     // the picture the writer is handed
     let seen_buf = if case.opts.lossless() { buf.flat_clone(false) } else { ColorOptimizer::new(&buf, &case.opts.save_options()).optimize(&buf) };
-    if with_lines {
+    if with_lines && !case.has_fonts() {
         let seen = Pic { rows: cells_of(&seen_buf, case.pic.w, case.pic.h), ..case.pic.clone() };
         let wobs = match &bytes {
             Ok(b) => hex(&split_sauce(b).0),
             Err(e) => e.split(':').next().unwrap_or("err").to_string(),
         };
-        run.case(&format!("artio write ans {} {}", case.opts.model_num(), join_i(&seen.ints())), &wobs);
+        let ints = if case.base.is_empty() { seen.ints() } else { seen.ints_with_palette(&case.palette()) };
+        run.case(&format!("artio write ans {} {}", case.opts.model_num(), join_i(&ints)), &wobs);
         if let Ok(b) = &bytes {
-            correspond_load(run, b, "load:writer-output");
+            // (outside the quantifier the file may hold raw control characters: not the reader model's sub-language)
+            if case.in_quantifier() {
+                correspond_load(run, b, "load:writer-output");
+            }
         }
+    }
+    if case.has_fonts() {
+        run.count("font-pages");
+    }
+    if !case.base.is_empty() {
+        run.count("custom-base-palette");
     }
     if case.in_quantifier() {
         oracle(run, case, &seen_buf, &bytes, seen_keys);
@@ -480,11 +640,17 @@ fn rand_row(rng: &mut Rng, ctrl: u8, len: i32, pool: &[(u32, u32, u16)], st: Sty
 fn rand_pic(rng: &mut Rng, ctrl: u8, w: i32, max_h: i32) -> Pic {
     let h = rng.range(1, max_h as i64) as i32;
     let ice = rng.below(3) as u8;
-    let nextra = *rng.pick(&[0usize, 0, 1, 3]);
+    let nextra = *rng.pick(&[0usize, 0, 1, 3, 6]);
     let extra: Vec<(u8, u8, u8)> = (0..nextra)
         .map(|k| match k {
-            // an xterm-256 colour, a colour that is in neither palette
-            0 => (0x5f, 0x87, 0xd7),
+            // an xterm-256 colour (the ends of the table more often), a value next to a palette colour, a colour that
+            // is in neither palette
+            0 | 3 => xterm_rgb(if rng.chance(1, 3) { *rng.pick(&[16usize, 231, 232, 254, 255]) } else { rng.below(256) as usize }),
+            4 => {
+                let base = if rng.chance(1, 2) { dos_rgb(rng.below(16) as usize) } else { xterm_rgb(rng.below(256) as usize) };
+                let near = neighbours(base);
+                *rng.pick(&near)
+            }
             _ => (rng.below(256) as u8, rng.below(256) as u8, rng.below(256) as u8),
         })
         .collect();
@@ -504,6 +670,34 @@ fn rand_pic(rng: &mut Rng, ctrl: u8, w: i32, max_h: i32) -> Pic {
         })
         .collect();
     Pic { w, h, ice, extra, rows }
+}
+
+/// a custom base palette: a few slots hold another DOS colour (two slots, one colour), an xterm colour, a value next to
+/// a palette colour or any RGB value; slot 0 (the colour of untouched cells) and the slots below 8 are hit most often
+fn rand_base(rng: &mut Rng, ncol: u32) -> Vec<(u32, (u8, u8, u8))> {
+    let mut v: Vec<(u32, (u8, u8, u8))> = Vec::new();
+    for _ in 0..rng.range(1, 4) {
+        let slot = match rng.below(6) {
+            0 => 0,
+            1 | 2 => rng.below(8) as u32,
+            3 => rng.range(8, 15) as u32,
+            4 => rng.below(ncol as u64) as u32,
+            _ => 7,
+        };
+        let col = match rng.below(6) {
+            0 | 1 => dos_rgb(rng.below(16) as usize),
+            2 => xterm_rgb(rng.below(256) as usize),
+            3 => {
+                let near = neighbours(dos_rgb(rng.below(16) as usize));
+                *rng.pick(&near)
+            }
+            4 => (0, 0, 0),
+            _ => (rng.below(256) as u8, rng.below(256) as u8, rng.below(256) as u8),
+        };
+        v.retain(|(i, _)| *i != slot);
+        v.push((slot, col));
+    }
+    v
 }
 
 /// small pictures for the option lattice: 2 rows, a few cells, blanks in interesting places
@@ -537,6 +731,187 @@ fn small_pics() -> Vec<Pic> {
     r5[40] = c(32, 7, 0, 0);
     v.push(mk(0, vec![], vec![r5, vec![c(89, 7, 0, 0)], vec![], vec![c(90, 12, 0, 0)]]));
     v
+}
+
+
+// ------------------------------------------------------------------ colour pictures
+
+fn xterm_rgb(i: usize) -> (u8, u8, u8) {
+    XTERM_256_PALETTE[i].1.get_rgb()
+}
+
+fn dos_rgb(i: usize) -> (u8, u8, u8) {
+    DOS_DEFAULT_PALETTE[i].get_rgb()
+}
+
+/// every value one step away (in one component) from `c`
+fn neighbours(c: (u8, u8, u8)) -> Vec<(u8, u8, u8)> {
+    let mut v = Vec::new();
+    for k in 0..3 {
+        for d in [-1i16, 1] {
+            let mut t = [c.0 as i16, c.1 as i16, c.2 as i16];
+            t[k] += d;
+            if (0..=255).contains(&t[k]) {
+                v.push((t[0] as u8, t[1] as u8, t[2] as u8));
+            }
+        }
+    }
+    v
+}
+
+/// pictures whose point is the COLOUR path of writer and reader: every xterm-256 index as foreground and as background
+/// (written as `38;5;n` / `48;5;n` with extended colours, as `CSI 1/0;r;g;b t` without), the values next to palette
+/// colours (always 24-bit), all 16 x 16 DOS pairs (bright backgrounds in every ice mode), and rows in which foreground
+/// and background change TOGETHER from one kind of colour to another (one SGR sequence carries both changes: a
+/// rejected parameter loses both).  (name, picture)
+fn colour_pics() -> Vec<(&'static str, Pic, Vec<(u32, (u8, u8, u8))>)> {
+    let c = |ch: u32, fg: u32, bg: u32, flags: u16| PCell { ch, fg, bg, flags };
+    let xterm: Vec<(u8, u8, u8)> = (0..256).map(xterm_rgb).collect();
+    let mk = |extra: &Vec<(u8, u8, u8)>, rows: Vec<Vec<PCell>>| Pic { w: 80, h: rows.len() as i32, ice: 2, extra: extra.clone(), rows };
+    let mut v0: Vec<(&'static str, Pic)> = Vec::new();
+    let v = &mut v0;
+    // 16 x 16 swatches: palette index 16 + n is xterm colour n
+    v.push(("swatch-fg", mk(&xterm, (0..16u32).map(|y| (0..16u32).map(|x| c(65 + (x + y) % 26, 16 + y * 16 + x, 0, 0)).collect()).collect())));
+    v.push(("swatch-bg", mk(&xterm, (0..16u32).map(|y| (0..16u32).map(|x| c(if (x + y) % 3 == 0 { 32 } else { 97 + x }, 7, 16 + y * 16 + x, 0)).collect()).collect())));
+    v.push(("swatch-both", mk(&xterm, (0..16u32).map(|y| (0..16u32).map(|x| c(48 + x, 16 + y * 16 + x, 16 + 255 - (y * 16 + x), if x % 5 == 0 { 1 } else { 0 })).collect()).collect())));
+    // foreground / background change kind in the same cell transition: (xterm, DOS) -> (DOS, xterm) -> (xterm, xterm) -> (DOS, DOS)
+    let mut cells = Vec::new();
+    for n in 0..256u32 {
+        cells.push(c(35, 16 + n, n % 8, 0));
+        cells.push(c(36, (n * 7) % 16, 16 + n, 0));
+        if n % 4 == 0 {
+            cells.push(c(37, 16 + (n + 128) % 256, 16 + 255 - n, 0));
+            cells.push(c(38, (n / 4) % 16, (n / 4 + 1) % 8, 0));
+        }
+    }
+    v.push(("kind-changes", mk(&xterm, cells.chunks(80).map(|r| r.to_vec()).collect())));
+    // the values next to palette colours: never in a table, always 24-bit
+    let mut bases: Vec<(u8, u8, u8)> = (0..16).map(dos_rgb).collect();
+    bases.extend([0usize, 7, 8, 15, 16, 17, 21, 196, 231, 232, 243, 254, 255].iter().map(|i| xterm_rgb(*i)));
+    let mut near: Vec<(u8, u8, u8)> = Vec::new();
+    for b in &bases {
+        for n in std::iter::once(*b).chain(neighbours(*b)) {
+            if !near.contains(&n) && !(0..16).any(|i| dos_rgb(i) == n) {
+                near.push(n);
+            }
+        }
+    }
+    let mut cells = Vec::new();
+    for n in 0..near.len() as u32 {
+        cells.push(c(66, 16 + n, (n % 3) * 2, 0));
+        cells.push(c(67, 7 + (n % 2) * 8, 16 + n, 0));
+    }
+    v.push(("near-palette", mk(&near, cells.chunks(80).map(|r| r.to_vec()).collect())));
+    // all 16 x 16 DOS pairs; odd rows blink (cleared in ice mode), some cells bold
+    v.push(("dos-pairs", mk(&Vec::new(), (0..16u32).map(|bg| (0..16u32).map(|fg| c(if fg == bg { 32 } else { 65 + fg }, fg, bg, (if bg % 2 == 1 { 8 } else { 0 }) | (if fg % 4 == 1 { 1 } else { 0 }))).collect()).collect())));
+    // runs of blanks on extended / bright backgrounds between text (cursor forward and repeat must not swallow them)
+    let mut r = vec![c(65, 16 + 255, 0, 0)];
+    r.extend(std::iter::repeat(c(32, 7, 16 + 255, 0)).take(9));
+    r.extend(std::iter::repeat(c(32, 7, 0, 0)).take(9));
+    r.extend(std::iter::repeat(c(32, 16 + 254, 12, 0)).take(9));
+    r.extend(std::iter::repeat(c(219, 16 + 255, 16 + 16, 0)).take(9));
+    r.push(c(66, 15, 16 + 255, 1));
+    v.push(("blank-runs", mk(&xterm, vec![r.clone(), vec![c(67, 16 + 255, 16 + 232, 0)], r])));
+    let mut out: Vec<(&'static str, Pic, Vec<(u32, (u8, u8, u8))>)> = v0.into_iter().map(|(n, p)| (n, p, Vec::new())).collect();
+    // custom base palettes.  (a) slots below 8 hold OTHER dark DOS colours, then bright cells follow (SGR 1 brightens
+    // the colour the terminal is on, not the slot); (b) colour 0 is not black: blanks on colour 0 must be written
+    let none: Vec<(u8, u8, u8)> = Vec::new();
+    let mut cells = Vec::new();
+    for i in 0..8u32 {
+        cells.push(c(65 + i, i, 0, 0));
+        cells.push(c(97 + i, 8 + (i + 3) % 8, 0, 0));
+        cells.push(c(48 + i, i, 0, 1));
+    }
+    out.push(("slots-permuted", mk(&none, vec![cells.clone()]), (0..8u32).map(|i| (i, dos_rgb(((i + 1) % 8) as usize))).collect()));
+    out.push(("slots-duplicated", mk(&none, vec![cells]), vec![(3, dos_rgb(4)), (5, dos_rgb(4)), (9, dos_rgb(1)), (2, (1, 2, 3))]));
+    let mut r = vec![c(65, 7, 0, 0)];
+    r.extend(std::iter::repeat(c(32, 7, 0, 0)).take(12));
+    r.push(c(66, 7, 1, 0));
+    out.push(("colour0-not-black", mk(&none, vec![r.clone(), vec![c(67, 7, 0, 0)], r.clone()]), vec![(0, (1, 2, 3))]));
+    out.push(("colour0-bright", mk(&none, vec![r.clone(), vec![], r]), vec![(0, dos_rgb(8)), (8, (0, 0, 0))]));
+    out
+}
+
+
+/// pictures whose point is GEOMETRY under a SAUCE width: marks and runs of plain blanks (cursor-forward candidates) left
+/// and right of column 80, at the right margin, in the last row; widths 1..=132
+fn wide_pics() -> Vec<Pic> {
+    let c = |ch: u32, fg: u32, bg: u32| PCell { ch, fg, bg, flags: 0 };
+    let mut v = Vec::new();
+    for w in [1i32, 2, 5, 6, 40, 79, 80, 81, 86, 100, 131, 132] {
+        let mut rows: Vec<Vec<PCell>> = Vec::new();
+        // marks at both ends
+        let mut r: Vec<PCell> = (0..w).map(|_| c(32, 7, 0)).collect();
+        r[0] = c(65, 7, 0);
+        r[w as usize - 1] = c(66, 2, 0);
+        rows.push(r);
+        // a mark in every 7th column: gaps of 6 plain blanks all along the row
+        rows.push((0..w).map(|x| if x % 7 == 0 { c(67, 3, 0) } else { c(32, 7, 0) }).collect());
+        // one long gap that ends 1, 2, 6 cells before the margin
+        for back in [1i32, 2, 6] {
+            if w > back + 1 {
+                let mut r: Vec<PCell> = (0..w - back).map(|_| c(32, 7, 0)).collect();
+                r[0] = c(68, 4, 0);
+                r.push(c(69, 5, 1));
+                rows.push(r);
+            }
+        }
+        // a short row, an empty row, a full row of blocks, text after a gap in the last row
+        rows.push(vec![c(70, 7, 0)]);
+        rows.push(vec![]);
+        rows.push((0..w).map(|x| c(219, (x % 16) as u32, 0)).collect());
+        let mut r: Vec<PCell> = (0..(w - 1).max(0)).map(|_| c(32, 7, 0)).collect();
+        r.push(c(71, 14, 0));
+        rows.push(r);
+        v.push(Pic { w, h: rows.len() as i32, ice: 0, extra: vec![], rows });
+    }
+    v
+}
+
+/// SGR / 24-bit tokens on the boundaries of the colour tables, for the reader correspondence
+fn colour_token(rng: &mut Rng, out: &mut Vec<u8>) {
+    let idx = |rng: &mut Rng| -> i64 {
+        match rng.below(4) {
+            0 => *rng.pick(&[0i64, 7, 8, 15, 16, 231, 232, 254, 255, 256, 257, 1000]),
+            _ => rng.range(0, 255),
+        }
+    };
+    let comp = |rng: &mut Rng| -> i64 {
+        match rng.below(4) {
+            0 => *rng.pick(&[0i64, 1, 84, 85, 86, 170, 254, 255, 256]),
+            _ => rng.range(0, 255),
+        }
+    };
+    let mut ps: Vec<String> = Vec::new();
+    for _ in 0..rng.range(1, 3) {
+        ps.push(match rng.below(8) {
+            0 | 1 => format!("38;5;{}", idx(rng)),
+            2 | 3 => format!("48;5;{}", idx(rng)),
+            4 => format!("38;2;{};{};{}", comp(rng), comp(rng), comp(rng)),
+            5 => format!("48;2;{};{};{}", comp(rng), comp(rng), comp(rng)),
+            6 => (*rng.pick(&[0i64, 1, 5, 31, 44, 37, 40])).to_string(),
+            _ => (*rng.pick(&["38", "48", "38;5", "48;2;1", "38;7;1"])).to_string(),
+        });
+    }
+    if rng.chance(1, 5) {
+        out.extend_from_slice(format!("\x1b[{};{};{};{}t", rng.range(0, 2), comp(rng), comp(rng), comp(rng)).as_bytes());
+    } else {
+        out.extend_from_slice(format!("\x1b[{}m", ps.join(";")).as_bytes());
+    }
+}
+
+fn colour_stream(rng: &mut Rng) -> Vec<u8> {
+    let mut out = Vec::new();
+    for _ in 0..rng.range(2, 24) {
+        colour_token(rng, &mut out);
+        for _ in 0..rng.range(0, 3) {
+            out.push(*rng.pick(b"abc #"));
+        }
+        if rng.chance(1, 8) {
+            out.extend_from_slice(b"\x1b[?33h");
+        }
+    }
+    out
 }
 
 fn mutate_rows(rng: &mut Rng, bytes: &[u8]) -> Vec<u8> {
@@ -662,7 +1037,7 @@ pub fn run(run: &mut Run, seed: u64, thorough: bool, replay: Option<&str>, corpu
                         }
                     }
                 }
-                let case = Case { opts: Opts::from_num(n, false), pic: p };
+                let case = Case { opts: Opts::from_num(n, false), pic: p, base: vec![], fonts: vec![] };
                 one(run, &case, (n as usize + k) % (if thorough { 8 } else { 4 }) == 0, &mut seen_keys);
                 lattice += 1;
             }
@@ -670,13 +1045,95 @@ pub fn run(run: &mut Run, seed: u64, thorough: bool, replay: Option<&str>, corpu
     }
     run.extra.push(("option_lattice_cases".into(), lattice.to_string()));
     run.extra.push(("exhaustive_option_lattice".into(), thorough.to_string()));
+    // colour pictures: every xterm-256 index, near-palette RGB values, all DOS pairs, kind changes — in all three ice
+    // modes, with extended colours on and off, under the default options and under seeded / (thorough) all encodings
+    let mut colour_cases = 0u64;
+    for (k, (_name, pic, base)) in colour_pics().iter().enumerate() {
+        for ice in 0..3u8 {
+            let mut p = pic.clone();
+            p.ice = ice;
+            if ice == 1 {
+                for c in p.rows.iter_mut().flatten() {
+                    c.flags &= !8;
+                }
+            }
+            let mut encs: Vec<u8> = Vec::new();
+            if thorough {
+                encs.extend(0..64u8);
+            } else {
+                // default encoding with and without extended colours, plain, everything on, and two seeded ones
+                encs.extend([0b100011u8, 0b000011, 0, 0b100000, 0b101111, 0b001111, 0b110101, 0b010111]);
+                encs.push(rng.below(64) as u8);
+                encs.push(rng.below(64) as u8);
+            }
+            for (j, enc) in encs.iter().enumerate() {
+                // the colour optimiser is exercised on every second point (bit 6 = lossless output)
+                let bits = enc | if (j + k) % 2 == 0 { 64 } else { 128 };
+                let opts = Opts { prep: ((j + k) % 3) as u8, ctrl: 1, bits, sauce: false };
+                let case = Case { opts, pic: p.clone(), base: base.clone(), fonts: vec![] };
+                one(run, &case, (j + k + ice as usize) % (if thorough { 16 } else { 5 }) == 0, &mut seen_keys);
+                colour_cases += 1;
+            }
+        }
+    }
+    run.extra.push(("colour_picture_cases".into(), colour_cases.to_string()));
+    // geometry pictures: every width with the SAUCE record carrying it (width 80 also without), 10 encodings in quick
+    let mut wide_cases = 0u64;
+    for (k, pic) in wide_pics().iter().enumerate() {
+        let mut encs: Vec<u8> = Vec::new();
+        if thorough {
+            encs.extend(0..32u8);
+        } else {
+            encs.extend([0b00011u8, 0b00001, 0, 0b00111, 0b01111, 0b11111, 0b10011, 0b00101]);
+            encs.push(rng.below(32) as u8);
+            encs.push(rng.below(32) as u8);
+        }
+        for (j, enc) in encs.iter().enumerate() {
+            let opts = Opts { prep: ((j + k) % 3) as u8, ctrl: 1, bits: enc | 32 | 64, sauce: true };
+            let mut p = pic.clone();
+            p.ice = ((j + k) % 3) as u8;
+            let case = Case { opts, pic: p, base: vec![], fonts: vec![] };
+            one(run, &case, (j + k) % (if thorough { 8 } else { 3 }) == 0, &mut seen_keys);
+            wide_cases += 1;
+            if pic.w == 80 && j % 2 == 0 {
+                let case = Case { opts: Opts { sauce: false, ..opts }, pic: pic.clone(), base: vec![], fonts: vec![] };
+                one(run, &case, false, &mut seen_keys);
+                wide_cases += 1;
+            }
+        }
+    }
+    run.extra.push(("geometry_picture_cases".into(), wide_cases.to_string()));
     // seeded larger pictures, random options
     for k in 0..(if thorough { 4000 } else { 250 }) {
         let opts = Opts { prep: rng.below(3) as u8, ctrl: rng.below(3) as u8, bits: rng.below(256) as u8, sauce: k % 3 == 0 };
         let rw = rng.range(1, 132) as i32;
         let w = if opts.sauce { *rng.pick(&[80i32, 80, 1, 2, 3, 40, 79, 81, 132, rw]) } else { 80 };
-        let pic = rand_pic(&mut rng, opts.ctrl, w, if k % 5 == 0 { 60 } else { 6 });
-        let case = Case { opts, pic };
+        // one picture in twelve holds characters the control-character mode cannot encode (FilterOut writes '.', Ignore the
+        // raw byte): outside the quantifier, the writer model is still tied on them
+        let chars_ctrl = if k % 12 == 7 { 1 } else { opts.ctrl };
+        let mut pic = rand_pic(&mut rng, chars_ctrl, w, if k % 5 == 0 { 60 } else { 6 });
+        if k % 6 == 2 {
+            // rows at the bottom that were never touched (the buffer is taller than what was drawn)
+            let keep = rng.range(0, pic.rows.len() as i64) as usize;
+            pic.rows.truncate(keep);
+        }
+        let base = if k % 4 == 1 { rand_base(&mut rng, 16 + pic.extra.len() as u32) } else { Vec::new() };
+        // one picture in eight uses other font pages: ANSI fonts in slots 1..=3, runs of cells select them
+        let mut fonts = Vec::new();
+        if k % 8 == 3 {
+            let ok = cp437_like_fonts();
+            fonts = (0..rng.range(1, 3)).map(|_| *rng.pick(&ok)).collect();
+            for row in pic.rows.iter_mut() {
+                let mut slot = 0u16;
+                for c in row.iter_mut() {
+                    if rng.chance(1, 6) {
+                        slot = rng.below(fonts.len() as u64 + 1) as u16;
+                    }
+                    c.flags |= slot << 10;
+                }
+            }
+        }
+        let case = Case { opts, pic, base, fonts };
         if let Some(b) = one(run, &case, true, &mut seen_keys) {
             if k % 2 == 0 && !opts.sauce {
                 let m = mutate_rows(&mut rng, &b);
@@ -687,5 +1144,9 @@ pub fn run(run: &mut Run, seed: u64, thorough: bool, replay: Option<&str>, corpu
     for _ in 0..(if thorough { 6000 } else { 500 }) {
         let st = token_stream(&mut rng);
         correspond_load(run, &st, "load:token-stream");
+    }
+    for _ in 0..(if thorough { 3000 } else { 300 }) {
+        let st = colour_stream(&mut rng);
+        correspond_load(run, &st, "load:colour-token-stream");
     }
 }
